@@ -44,6 +44,14 @@ pub trait Store {
         ann: &Announcement,
     ) -> Result<Option<AnnouncementId>, Error>;
 
+    /// Get the identifier of the stored announcement of the given node, if it is the same
+    /// announcement as the given one, ie. same type, repository and timestamp.
+    fn announcement_id(
+        &self,
+        nid: &NodeId,
+        ann: &Announcement,
+    ) -> Result<Option<AnnouncementId>, Error>;
+
     /// Set whether a message should be relayed or not.
     fn set_relay(&mut self, id: AnnouncementId, relay: RelayStatus) -> Result<(), Error>;
 
@@ -130,6 +138,43 @@ impl Store for Database {
         }
         stmt.bind((5, &ann.signature))?;
         stmt.bind((6, &ann.message.timestamp()))?;
+
+        if let Some(row) = stmt.into_iter().next() {
+            let row = row?;
+            let id = row.read::<i64, _>("rowid");
+
+            Ok(Some(id as AnnouncementId))
+        } else {
+            Ok(None)
+        }
+    }
+
+    fn announcement_id(
+        &self,
+        nid: &NodeId,
+        ann: &Announcement,
+    ) -> Result<Option<AnnouncementId>, Error> {
+        let mut stmt = self.db.prepare(
+            "SELECT rowid FROM `announcements`
+             WHERE node = ?1 AND repo = ?2 AND type = ?3 AND timestamp = ?4",
+        )?;
+        stmt.bind((1, nid))?;
+
+        match &ann.message {
+            AnnouncementMessage::Node(_) => {
+                stmt.bind((2, sql::Value::String(String::new())))?;
+                stmt.bind((3, &GossipType::Node))?;
+            }
+            AnnouncementMessage::Refs(msg) => {
+                stmt.bind((2, &msg.rid))?;
+                stmt.bind((3, &GossipType::Refs))?;
+            }
+            AnnouncementMessage::Inventory(_) => {
+                stmt.bind((2, sql::Value::String(String::new())))?;
+                stmt.bind((3, &GossipType::Inventory))?;
+            }
+        }
+        stmt.bind((4, &ann.message.timestamp()))?;
 
         if let Some(row) = stmt.into_iter().next() {
             let row = row?;
